@@ -72,7 +72,7 @@ def run(tier, seed, extra=None):
     if exe_h is not None:
         gen_evm_forms(c)       # before the proofs: props/C20.v is proved about the regenerated code
     c.prove(PROPS)
-    st_fp, st_stk, st_vmf, st_evm, evm_bounds, pend = {}, {}, {}, {}, {}, []
+    st_fp, st_stk, st_vmf, st_evm, evm_bounds, pend, evm_cert = {}, {}, {}, {}, {}, [], {}
     if exe_h is None:
         c.broken_correspondence("harness-build", None, V.tail(hlog, 40))
     else:
@@ -139,7 +139,19 @@ def run(tier, seed, extra=None):
             if rc != 0:
                 c.broken_correspondence("harness-run fp", None, V.tail(out, 40))
             else:
-                for line, verdict in V.compare_model(c, exe_m, cases, "c20fp")[:10]:
+                # the verified certifier applied to the compiled code of every measured program (lines (evmcert ...)):
+                # split them off, the fp judge sees the (fp ...) lines only
+                cert_cases = cases + ".cert"
+                fp_lines, cert_lines = [], []
+                for l in open(cases):
+                    (cert_lines if l.startswith("(evmcert ") else fp_lines).append(l)
+                open(cases, "w").write("".join(fp_lines))
+                open(cert_cases, "w").write("".join(cert_lines))
+                mism_fp = V.compare_model(c, exe_m, cases, "c20fp")
+                grows = set(f["src"] for f in (fp_fields(l) for l, _ in mism_fp) if f)
+                pend_srcs = set(f["src"] for f in (fp_fields(l) for l in fp_lines) if f and f["mode"] == "pend")
+                evm_cert = cert_stream(c, exe_m, cert_cases, grows, pend_srcs)
+                for line, verdict in mism_fp[:10]:
                     f = fp_fields(line)
                     det = verdict
                     if f:
@@ -161,8 +173,54 @@ def run(tier, seed, extra=None):
             "definitions) + seeded generated tail-recursive definitions (guard form x step x nesting), each run at n and 8n with the peak "
             "footprint sampled at every instruction; stk: random operation sequences (3..72 ops, with and without pops of the empty stack); "
             "distinct = distinct case lines")
-    return c.finish(rule, extra_cov=dict(harness_stats_fp=st_fp, harness_stats_stk=st_stk, harness_stats_vmf=st_vmf, harness_stats_evmtrace=st_evm, evm_certified_bounds=evm_bounds,
+    return c.finish(rule, extra_cov=dict(harness_stats_fp=st_fp, harness_stats_stk=st_stk, harness_stats_vmf=st_vmf, harness_stats_evmtrace=st_evm, evm_certified_bounds=evm_bounds, evm_certified_programs=evm_cert,
                                          informational_pending_choice_point_forms=pend))
+
+
+def cert_stream(c, exe_m, cert_cases, grows, pend_srcs):
+    """Every program the fp stream measures goes, as the erased code the current compiler emits for it, through the extracted
+    VERIFIED certifier (EVM.certify; theorem C20_evm_certify_sound_partial quantifies over all code): a certificate C is a
+    proof that forks + stack.data + scopes.data + values <= C at every reachable state, i.e. for every loop count.  The
+    implementation's measured peaks must lie within C (else the erased machine no longer describes execute.go), a program the
+    fp oracle sees growing must not be certifiable, and a tail-recursive definition that does not grow must be certified."""
+    lines, outs = V.run_model(exe_m, cert_cases)
+    st = dict(programs=len(lines), certified=0, uncertified=0, skipped_unsupported=0, max_bound=0, uncertified_programs=[])
+    if len(lines) != len(outs):
+        c.broken_correspondence("c20cert", None, "model produced %d verdicts for %d cases" % (len(outs), len(lines)))
+        return st
+    for l, o in zip(lines, outs):
+        m = re.match(r"^\(evmcert (\S+) ", l)
+        src = bytes.fromhex(m.group(1)).decode("utf-8", "replace") if m and m.group(1) != "-" else ""
+        c.note_case(l, True)
+        mc = re.match(r"^\(certified (\d+)\)$", o)
+        if mc:
+            st["certified"] += 1
+            st["max_bound"] = max(st["max_bound"], int(mc.group(1)))
+            if src in grows:
+                c.broken_correspondence("c20cert", "prog=%s" % src, "the footprint of this program grows on the implementation although its "
+                                        "compiled code is certified bounded by %s: the erased machine is not execute.go" % mc.group(1))
+        elif o == "uncertified":
+            st["uncertified"] += 1
+            st["uncertified_programs"].append(src[:200])
+            # required: tail-recursive definitions whose step creates no data-dependent choice point (the erased machine forgets
+            # the data, so `//`, `?//`, try, `?`, label, first/limit may leave a fork pending on an abstract path that no concrete
+            # run takes: such programs are recorded as uncertified, not judged), that are not in the informational category
+            # (mode pend) and that do not grow on the implementation
+            choice = any(t in src for t in ("//", "try", "?", "label", "first(", "limit(", "isempty(", "any(", "all("))
+            if src not in grows and src not in pend_srcs and not choice and re.match(r"^def [fg]: ", src):
+                # a tail-recursive definition that does not grow at n and 8n: the certificate is a proof obligation of this run
+                c.broken_correspondence("c20cert", "prog=%s" % src, "no certificate for the compiled code of this tail-recursive "
+                                        "definition (its footprint at n and 8n does not grow): the bound for every n is no longer proved")
+        elif o.startswith("(skip"):
+            st["skipped_unsupported"] += 1
+        elif "exceeds-certified-bound" in o:
+            c.broken_correspondence("c20cert", "prog=%s" % src, "measured footprint exceeds the bound certified for the compiled code: " + o)
+        else:
+            c.broken_correspondence("c20cert", "prog=%s" % src, "certifier verdict: " + o[:300])
+    if lines:
+        c.samples.append(dict(stream="c20cert", case=lines[0][:600], verdict=outs[0]))
+    st["uncertified_programs"] = st["uncertified_programs"][:40]
+    return st
 
 
 def replay(path):
